@@ -9,7 +9,7 @@ from hypothesis import strategies as st
 
 from conda_content_trust import authentication as A, common as C, signing as S
 
-from vlib import gen_json as G, gen_metadata as GM, gen_repodata as GR, keys, ref_ed25519, ref_verify as RV
+from vlib import siblings, gen_json as G, gen_metadata as GM, gen_repodata as GR, keys, ref_ed25519, ref_verify as RV
 from vlib.ref_canon import canon, jeq
 from vlib import cfgunit as _cfgunit
 from vlib.runner import Unit, Violation
@@ -34,7 +34,7 @@ ASSUMPTIONS = ["vlib/ref_ed25519.py / cryptography raw Ed25519 as signature orac
 @st.composite
 def _cases(draw):
     return {"doc": draw(GR.repodata()), "seed": draw(keys.seeds).hex(), "style": draw(st.sampled_from(GR.STYLES)),
-            "resign_edit": draw(st.booleans())}
+            "resign_edit": draw(st.booleans()), "sibling": draw(st.sampled_from(siblings.KINDS)), "load_mutate": draw(st.booleans())}
 
 
 def expected_after(doc, seed):
@@ -67,6 +67,13 @@ def check_case(case):
             f.write(GR.spell(doc, case["style"], canon))
         if not jeq(json.load(open(fn, "rb")), doc):
             raise Violation("harness: spelled file does not parse back to the document", bucket="harness")
+        planted = siblings.plant(fn, case.get("sibling", "none"))
+        if case.get("load_mutate"):
+            # another part of the program loaded the same file earlier and changed ITS copy in memory (never written back)
+            mine = C.load_metadata_from_file(fn)
+            if isinstance(mine, dict):
+                mine["packages"] = {}
+                mine["injected-in-memory-only"] = True
         _sign(fn, seed)
         exp = expected_after(doc, seed)
         data = open(fn, "rb").read()
@@ -99,8 +106,8 @@ def check_case(case):
         _sign(fn, seed)
         if open(fn, "rb").read() != data:
             raise Violation("signing an already signed repodata file again changed it", bucket="not idempotent")
-        if sorted(os.listdir(d)) != ["repodata.json"]:
-            raise Violation("signing left extra files behind: %r" % os.listdir(d), bucket="extra files")
+        if sorted(os.listdir(d)) != sorted(["repodata.json"] + planted):
+            raise Violation("signing left extra files behind (or removed someone else's): %r" % sorted(os.listdir(d)), bucket="extra files")
         # client path
         signed = json.loads(data)
         T = GM.wrap(GM.signed_part("key_mgr", {"pkg_mgr": {"pubkeys": [pub], "threshold": 1}}, version=None,
@@ -151,7 +158,7 @@ def check_case(case):
     finally:
         shutil.rmtree(d, ignore_errors=True)
     n1, n2 = len(doc.get("packages", {})), len(doc.get("packages.conda", {}))
-    labs = ["style=" + case["style"], "both-sections" if n1 and n2 else "one-section" if n1 or n2 else "no-artifacts",
+    labs = ["sibling=" + ("yes" if case.get("sibling", "none") != "none" else "no"), "style=" + case["style"], "both-sections" if n1 and n2 else "one-section" if n1 or n2 else "no-artifacts",
             "stale-signatures" if "signatures" in doc else "no-signatures-before", "packages.conda-absent"
             if "packages.conda" not in doc else "packages.conda-present"]
     return {"nontrivial": bool((n1 and n2) or "signatures" in doc or case["style"] != "canonical"), "labels": labs,
